@@ -227,6 +227,33 @@ example : ∀ d np nd, Blockwise.Arg.expr d np nd ∈ [Blockwise.Arg.expr 0 4 2,
 theorem C11_partitions_blockwise_counterexample :
     partitionsPush 2 true [⟨true, 1, 2⟩, ⟨true, 1, 0⟩] = [false, false] := by decide
 
+/-- **Why the class guard exists.**  Pushing the selection below an operation is sound exactly because a
+    blockwise task is a function of the partition it is given: for a task that does NOT look at the partition
+    number, selecting `P` first and applying the operation gives output `P[j]` of the operation … -/
+theorem C11_partitions_push_position_independent (g : List Row → List Row) (parts : List (List Row)) (P : List Nat)
+    (j : Nat) (hj : j < P.length) :
+    numberedOut (fun _ x => g x) (selectParts parts P) j = numberedOut (fun _ x => g x) parts P[j] := by
+  simp [numberedOut, selectParts, hj]
+
+/-- … while for a task that looks at the partition number (`partition_info`, a random state per partition,
+    neighbouring partitions) the pushed plan computes something else as soon as `P[j] ≠ j` (D82, D105):
+    `f i x` tags every row with the partition number `i`. -/
+theorem C11_partitions_push_number_dependent_counterexample :
+    let f : Nat → List Row → List Row := fun i x => x.map (fun r => ({ r with tgt := i } : Row))
+    let parts : List (List Row) := [[⟨0, 0, 10⟩], [⟨1, 0, 11⟩], [⟨2, 0, 12⟩]]
+    numberedOut f (selectParts parts [2]) 0 ≠ numberedOut f parts 2 := by
+  decide
+
+/-- the guard forbids the push exactly for the structural exceptions and the number-dependent classes -/
+theorem C11_partitions_push_guard (structural numberDependent : Bool) :
+    partitionsPushAllowed structural numberDependent = true ↔ structural = false ∧ numberDependent = false := by
+  cases structural <;> cases numberDependent <;> simp [partitionsPushAllowed]
+
+/-- a number-dependent class is never wrapped: it absorbs the selection itself or keeps the `Partitions` node -/
+theorem C11_partitions_rule_number_dependent (structural filtered : Bool) :
+    partitionsRule structural true filtered ≠ .wrap := by
+  cases structural <;> cases filtered <;> decide
+
 /-! ### 6. head and tail: the lowered graphs -/
 
 /-- **Head._lower**: whenever lowering succeeds, the single output of the lowered graph holds the first
